@@ -681,11 +681,12 @@ Definition generate_nsecs_t (apex : name) (dnskey : bool) (z : list trec) : outc
    created with the nsec3_ttl current at that moment (the ENT records with the
    final one), class IN; the NSEC3PARAM record: apex, class IN, nsec3param_ttl. *)
 Inductive pmode := PFixed (t : N) | PSoa | PSoaMin.
-Definition n3_upd (m : pmode) (f : trec) : N * N :=
-  (soa_ttl f, match m with PFixed t => t | PSoa => t_ttl f | PSoaMin => t_min f end).
+(* state: nsec3_ttl, (nsec3param_ttl, class of the SOA RRset) *)
+Definition n3_upd (m : pmode) (f : trec) : N * (N * N) :=
+  (soa_ttl f, (match m with PFixed t => t | PSoa => t_ttl f | PSoaMin => t_min f end, t_class f)).
 
 Definition tnsec3_bitmap (c : n3cfg) (m : pmode) (at_cut has_ds at_apex : bool) (recs : list trec)
-  (st : option (N * N)) : outcome (list block * option (N * N)) :=
+  (st : option (N * (N * N))) : outcome (list block * option (N * (N * N))) :=
   let bm := if negb at_cut || has_ds then bm_add [] nsec3_auth_type else [] in
   do r <- trrset_loop (n3_upd m) at_cut nsec3_cut_types (truns recs) bm st;
   let '(bm, st') := r in
@@ -697,8 +698,8 @@ Definition tnsec3_bitmap (c : n3cfg) (m : pmode) (at_cut has_ds at_apex : bool) 
   else Err 1.
 
 Fixpoint n3_loop_t (H : bytes -> bytes) (apex : name) (c : n3cfg) (m : pmode) (excl : bool) (gs : list tgroup)
-  (cut : option name) (stack : list name) (ents : list name) (st : option (N * N)) (acc : list (n3pre * N))
-  : outcome (list (n3pre * N) * list name * option (N * N)) :=
+  (cut : option name) (stack : list name) (ents : list name) (st : option (N * (N * N))) (acc : list (n3pre * N))
+  : outcome (list (n3pre * N) * list name * option (N * (N * N))) :=
   match gs with
   | [] => Ok (acc, ents, st)
   | g :: gs' =>
@@ -783,10 +784,10 @@ Definition generate_nsec3s_t (H : bytes -> bytes) (apex : name) (c : n3cfg) (m :
   let '(acc, ents, st) := r in
   match st with
   | None => Err 1
-  | Some (ttl, pttl) =>
+  | Some (ttl, (pttl, cls)) =>
       do entrecs <- ent_recs_t H c ttl ents;
       do out <- gfinish (n3pre * N) fst (rev acc ++ entrecs);
-      Ok (mk_n3out (map (fun x => (fst x, snd (snd x))) out) nsec3_class pttl)
+      Ok (mk_n3out (map (fun x => (fst x, snd (snd x))) out) (if nsec3_class_fixed then nsec3_class else cls) pttl)
   end.
 
 (* ------------------------------------------------------- RtypeBitmapIter *)
